@@ -1558,6 +1558,42 @@ func lemmaInBeforeContains(ks []string, x string, i int) {
 //@ loop gtree.defaultVerifierSimple.verifyRoot#1
 //@   invariant noex: forall x string :: {contains(noExistDirs, x)} contains(noExistDirs, x) == (specInBefore($keys, x, $i) && !inSet(maps[dirsFilesystem], x))
 
+// The text of a verification error: a heading per non-empty list (the extra list only in strict mode), each path on
+// its own line behind a tab, without the final newline.
+//@ spec gtree.specTabbed
+//@   requires rng: 0 <= i && i <= len(arr)
+//@   decreases i
+func specTabbed(arr []string, i int) string {
+	if i <= 0 {
+		return ""
+	}
+	return specTabbed(arr, i-1) + "\t" + arr[i-1] + "\n"
+}
+
+func specVerifyMsg(strict bool, extra, noExists []string) string {
+	msg := ""
+	if strict && len(extra) != 0 {
+		msg += "Extra paths exist:\n" + specTabbed(extra, len(extra))
+	}
+	if len(noExists) != 0 {
+		msg += "Required paths does not exist:\n" + specTabbed(noExists, len(noExists))
+	}
+	return msg
+}
+
+func specVerifyText(strict bool, extra, noExists []string) string {
+	m := specVerifyMsg(strict, extra, noExists)
+	if len(m) >= 1 && m[len(m)-1] == '\n' {
+		return m[:len(m)-1]
+	}
+	return m
+}
+
+//@ func gtree.verifyError.Error
+//@   ensures text [C08]: result == specVerifyText(v.strict, v.extra, v.noExists)
+//@ loop gtree.verifyError.Error#1#1
+//@   invariant sofar: tmp == specTabbed(arr, $i)
+
 //@ func gtree.defaultVerifierSimple.handleErr
 //@   requires nn: dv != nil
 //@   ensures verdict [C08]: (result == nil) == !((dv.strict && len(extra) != 0) || len(noExists) != 0)
